@@ -2,6 +2,7 @@ package rules
 
 import (
 	"fmt"
+	"go/ast"
 	"go/constant"
 	"go/token"
 	"go/types"
@@ -940,4 +941,90 @@ func c20commentReject(c *Ctx) {
 	if sites < 1 {
 		c.R.Undecided(rule, goctlParser+"#comment-checks", "the comment checks of the parser are recognised", fmt.Sprintf("%d found", sites))
 	}
+}
+
+// c20writtenListDecides (R17, round 7): layout by position is decided among the statements that are written.
+// (*AST).Format skips every statement that formats to nothing (`import ""`, `type ()`, an info block of empty
+// values …), so after one pass the raw statement list is a different list: a decision taken from a raw neighbour
+// (a.Stmts[idx+1]), from the raw length or from the raw index ("is this the last statement?") is taken differently
+// by the second pass, and formatting is not idempotent. In Format — and the literals it contains — the field Stmts
+// is only ranged over without using the key: no index expression on it, no len() of it inside a comparison, no use
+// of the key of a range over it. (Positions in a local list that holds exactly the written statements are fine.)
+func c20writtenListDecides(c *Ctx) {
+	rule := "C20.R17"
+	pk := c.P.Pkg(goctlAst)
+	f := c.fn(rule, goctlAst, "(*AST).Format")
+	if pk == nil || f == nil {
+		return
+	}
+	fd := c.P.FuncDecl(f)
+	if fd == nil || fd.Body == nil {
+		c.R.Undecided(rule, goctlAst+".(*AST).Format", "the declaration is found", "no syntax")
+		return
+	}
+	info := pk.TypesInfo
+	isStmts := func(e ast.Expr) bool {
+		e = ast.Unparen(e)
+		sel, ok := e.(*ast.SelectorExpr)
+		if !ok {
+			return false
+		}
+		if s := info.Selections[sel]; s != nil && s.Kind() == types.FieldVal {
+			if v, ok := s.Obj().(*types.Var); ok && v.Name() == "Stmts" && strings.HasSuffix(typeString(s.Recv()), "ast.AST") {
+				return true
+			}
+		}
+		return false
+	}
+	var bad []string
+	ranges := 0
+	var inCmp func(n ast.Node, cmp bool)
+	inCmp = func(n ast.Node, cmp bool) {
+		ast.Inspect(n, func(x ast.Node) bool {
+			switch y := x.(type) {
+			case *ast.BinaryExpr:
+				switch y.Op {
+				case token.EQL, token.NEQ, token.LSS, token.LEQ, token.GTR, token.GEQ:
+					inCmp(y.X, true)
+					inCmp(y.Y, true)
+					return false
+				}
+			case *ast.IndexExpr:
+				if isStmts(y.X) {
+					bad = append(bad, c.P.Pos(y.Pos())+": a raw neighbour a.Stmts[…] is consulted (it may be a statement that is not written)")
+				}
+			case *ast.CallExpr:
+				if id, ok := ast.Unparen(y.Fun).(*ast.Ident); ok && id.Name == "len" && len(y.Args) == 1 && isStmts(y.Args[0]) && cmp {
+					if _, isBuiltin := info.Uses[id].(*types.Builtin); isBuiltin {
+						bad = append(bad, c.P.Pos(y.Pos())+": the raw length len(a.Stmts) is compared (it counts statements that are not written)")
+					}
+				}
+			case *ast.RangeStmt:
+				if isStmts(y.X) {
+					ranges++
+					if k, ok := y.Key.(*ast.Ident); ok && k.Name != "_" {
+						ko := info.Defs[k]
+						used := false
+						ast.Inspect(y.Body, func(z ast.Node) bool {
+							if id, ok := z.(*ast.Ident); ok && ko != nil && info.Uses[id] == ko {
+								used = true
+							}
+							return true
+						})
+						if used {
+							bad = append(bad, c.P.Pos(k.Pos())+": the raw index "+k.Name+" of the statement list is used (positions shift once the statements that format to nothing are gone)")
+						}
+					}
+				}
+			}
+			return true
+		})
+	}
+	inCmp(fd.Body, false)
+	if ranges == 0 {
+		c.R.Undecided(rule, goctlAst+".(*AST).Format#written-list", "Format walks the statement list", "no range over the field Stmts found")
+		return
+	}
+	sort.Strings(bad)
+	c.R.Check(len(bad) == 0, rule, goctlAst+".(*AST).Format#written-list", "layout by position is decided among the statements that are written: the raw statement list is only ranged over (no a.Stmts[i], no compared len(a.Stmts), no use of the raw index)", c.P.Pos(f.Pos()), strings.Join(bad, "; "), bad, ranges)
 }
